@@ -60,6 +60,10 @@ pub struct Case {
     /// map dropped
     #[serde(default)]
     pub wire: u8,
+    /// CTAP2 level: while the user prompt is pending, the store's listing order is reversed (what
+    /// a later lookup lists first changes; the content does not)
+    #[serde(default)]
+    pub flip: bool,
 }
 
 fn cap_of(c: u8) -> Option<bool> {
@@ -93,7 +97,10 @@ pub fn cases() -> Vec<Case> {
                                         if wire != 0 && (arc_mutex != (wire % 2 == 0)) {
                                             continue;
                                         }
-                                        v.push(Case { op, rk: bits & 4 != 0, up: bits & 2 != 0, uv: bits & 1 != 0, cap, presence_cap, outcome, pin, arc_mutex, level: 0, uvreq: 0, ext, wire });
+                                        v.push(Case { op, rk: bits & 4 != 0, up: bits & 2 != 0, uv: bits & 1 != 0, cap, presence_cap, outcome, pin, arc_mutex, level: 0, uvreq: 0, ext, wire, flip: false });
+                                        if wire == 0 && !pin {
+                                            v.push(Case { op, rk: bits & 4 != 0, up: bits & 2 != 0, uv: bits & 1 != 0, cap, presence_cap, outcome, pin, arc_mutex, level: 0, uvreq: 0, ext, wire, flip: true });
+                                        }
                                     }
                                 }
                             }
@@ -105,7 +112,7 @@ pub fn cases() -> Vec<Case> {
         for uvreq in 0..4u8 {
             for cap in 0..3u8 {
                 for outcome in 0..7u8 {
-                    v.push(Case { op, rk: false, up: true, uv: false, cap, presence_cap: true, outcome, pin: false, arc_mutex: false, level: 1, uvreq, ext: false, wire: 0 });
+                    v.push(Case { op, rk: false, up: true, uv: false, cap, presence_cap: true, outcome, pin: false, arc_mutex: false, level: 1, uvreq, ext: false, wire: 0, flip: false });
                 }
             }
         }
@@ -144,12 +151,12 @@ struct Obs {
     log: Vec<Event>,
 }
 
-fn run_ctap<S>(c: &Case, store: S, list: Option<Vec<Vec<u8>>>, log: Log) -> Result<(u8, Vec<u8>), u8>
+fn run_ctap<S>(c: &Case, store: S, list: Option<Vec<Vec<u8>>>, log: Log, hook: Option<Arc<dyn Fn() + Send + Sync>>) -> Result<(u8, Vec<u8>), u8>
 where
     S: CredentialStore<PasskeyItem = Passkey> + Send + Sync,
 {
     let uv = ScriptedUv { verification_cap: cap_of(c.cap), presence_cap: c.presence_cap, outcome: outcome_of(c.outcome), yields: 0, log };
-    let mut auth = Authenticator::new(Aaguid::new_empty(), store, uv);
+    let mut auth = Authenticator::new(Aaguid::new_empty(), store, HookUv { inner: uv, hook });
     if c.ext {
         auth = auth.hmac_secret(passkey_authenticator::extensions::HmacSecretConfig::new_without_uv().enable_on_make_credential());
     }
@@ -194,12 +201,22 @@ fn observe(c: &Case, content: Content) -> Obs {
     }
     if c.arc_mutex {
         let shared = Arc::new(tokio::sync::Mutex::new(Logging { inner: store, log: log.clone() }));
-        let result = run_ctap(c, shared.clone(), list, log.clone());
+        let s2 = shared.clone();
+        let hook: Option<Arc<dyn Fn() + Send + Sync>> = c.flip.then(|| {
+            Arc::new(move || {
+                if let Ok(mut g) = s2.try_lock() {
+                    g.inner.newest_first ^= true;
+                }
+            }) as Arc<dyn Fn() + Send + Sync>
+        });
+        let result = run_ctap(c, shared.clone(), list, log.clone(), hook);
         let after = shared.recs();
         Obs { result, before, after, log: log.take() }
     } else {
         let shared = Shared::new(store);
-        let result = run_ctap(c, Logging { inner: shared.clone(), log: log.clone() }, list, log.clone());
+        let s2 = shared.clone();
+        let hook: Option<Arc<dyn Fn() + Send + Sync>> = c.flip.then(|| Arc::new(move || s2.0.lock().unwrap().newest_first ^= true) as Arc<dyn Fn() + Send + Sync>);
+        let result = run_ctap(c, Logging { inner: shared.clone(), log: log.clone() }, list, log.clone(), hook);
         let after = shared.recs();
         Obs { result, before, after, log: log.take() }
     }
@@ -483,7 +500,7 @@ pub fn eval_pair(p: &Pair) -> (Vec<Finding>, String) {
             Op::Get => block_on(auth.get_assertion(ga_request(RP, None, false, true, uvreq, false, None))).map(|r| u8::from(r.auth_data.flags)).map_err(sc_byte),
         });
         let after = shared.recs();
-        let c = Case { op, rk: false, up: true, uv: uvreq, cap: 2, presence_cap: true, outcome, pin: false, arc_mutex: false, level: 0, uvreq: 0, ext: false, wire: 0 };
+        let c = Case { op, rk: false, up: true, uv: uvreq, cap: 2, presence_cap: true, outcome, pin: false, arc_mutex: false, level: 0, uvreq: 0, ext: false, wire: 0, flip: false };
         let ok = consent_ok(&c, true, uvreq);
         let checked = log.snapshot().iter().any(|e| matches!(e, Event::CheckUser { .. }));
         match r {
